@@ -69,35 +69,68 @@ def toy_table(ctx: Ctx) -> dict:
     return {"module": mod, "rows": rows}
 
 
+from ..typesys import class_sequence as _class_sequence  # noqa: E402
+
+
 def decode_chain(ctx: Ctx) -> tuple[dict, Optional[ClassInfo], bool]:
+    """What ToyInstruction.from_integer constructs for each of the 16 opcodes.
+
+    The decoder is evaluated by sa.absrun once per opcode k: the word is k*2**12 + a with a symbolic 12-bit
+    address field a, so `opcode` folds to the constant k, an if/elif chain resolves, and a table lookup
+    `table[opcode](address)` indexes a class sequence folded from the module.  Returns ({k: (class, call)} for the
+    opcodes that do not take the default, default class, total?) in the shape the callers already use: the default is
+    the class shared by the opcodes without a constructor of their own."""
+    from ..absrun import AbsRun
+    from ..bitslice import Form, Inconclusive
     m = ctx.model
-    f = m.method("ToyInstruction", "from_integer", own=True)
-    chain: dict = {}
-    default = None
-    total = False
-    top = next((n for n in f.node.body if isinstance(n, ast.If)), None)
-    if top is None:
-        raise AnalysisError("anchor vanished: decode chain in ToyInstruction.from_integer")
-    node: Optional[ast.AST] = top
-    while isinstance(node, ast.If):
-        t = node.test
-        k = None
-        if isinstance(t, ast.Compare) and len(t.ops) == 1 and isinstance(t.ops[0], ast.Eq) and isinstance(t.left, ast.Name) and t.left.id == "opcode":
-            k = const_int(t.comparators[0])
-        ret = node.body[0] if len(node.body) == 1 and isinstance(node.body[0], ast.Return) else None
-        c = m.resolve_class(f.module, ret.value.func) if ret is not None and isinstance(ret.value, ast.Call) else None
-        if k is None or c is None:
-            raise AnalysisError(f"{f.loc(node)}: decode chain link not of the form `opcode == k: return Cls(address)`")
-        if k in chain:
-            raise AnalysisError(f"{f.loc(node)}: opcode {k} decoded twice")
-        chain[k] = (c, ret.value)
-        if len(node.orelse) == 1 and isinstance(node.orelse[0], ast.If):
-            node = node.orelse[0]
-        else:
-            if len(node.orelse) == 1 and isinstance(node.orelse[0], ast.Return) and isinstance(node.orelse[0].value, ast.Call):
-                default = m.resolve_class(f.module, node.orelse[0].value.func)
-                total = True
-            node = None
+    f = m.method("ToyInstruction", "from_integer")
+    word = f.params[-1]
+    got: dict = {}
+    for k in range(16):
+        seen: list = []
+
+        def on_call(c: ast.Call, ev, _seen=seen):
+            fn = c.func
+            cls = None
+            if isinstance(fn, ast.Name):
+                if fn.id == "len" and len(c.args) == 1:
+                    seq = _class_sequence(m, f.module, c.args[0])
+                    if seq is not None:
+                        return Form.k(len(seq))
+                cls = m.resolve_class(f.module, fn)
+            elif isinstance(fn, ast.Subscript):
+                seq = _class_sequence(m, f.module, fn.value)
+                idx = ev.ev(fn.slice)
+                if seq is not None and idx.is_const() and 0 <= idx.const < len(seq):
+                    cls = seq[idx.const]
+                elif seq is not None and idx.is_const():
+                    raise Inconclusive(f"decode table indexed with {idx.const} (length {len(seq)})")
+            if cls is not None:
+                args = []
+                for a in c.args:
+                    try:
+                        args.append(ev.ev(a))
+                    except Inconclusive:
+                        args.append(None)
+                _seen.append((cls, args, c))
+                return Form.k(0)
+            return None
+
+        run = AbsRun(m, f, {word: Form.k(k << 12) + Form.field("a", 0, 12)}, {}, on_call=on_call)
+        try:
+            run.run()
+        except Inconclusive as exc:
+            raise AnalysisError(f"{f.loc()}: ToyInstruction.from_integer is outside the abstract interpreter for opcode {k}: {exc}")
+        if len(seen) == 1:
+            got[k] = seen[0]
+    total = len(got) == 16
+    # the default: the class of the opcodes no constructor claims (callers compare it with NOP)
+    tab = toy_table(ctx)
+    assigned = {row["opcode"] for row in tab["rows"].values() if isinstance(row["opcode"], int)}
+    free = [k for k in range(16) if k not in assigned and k in got]
+    default = got[free[0]][0] if free and all(got[k][0] is got[free[0]][0] for k in free) else None
+    chain = {k: (c, call) for k, (c, args, call) in got.items() if k in assigned}
+    ctx.__dict__["_toy_decode_args"] = {k: args for k, (c, args, call) in got.items()}
     return chain, default, total
 
 
@@ -134,9 +167,13 @@ def run(ctx: Ctx) -> None:
             ok = got is want
             r.check(ok, f"from_integer|opcode {k}", f.loc(chain[k][1]) if k in chain else f.loc(),
                     f"opcode {k} is {want.name} by its constructor but decodes to {got.name if got else None}")
+    from ..bitslice import Form as _Form
+    dargs = ctx.__dict__.get("_toy_decode_args", {})
     for k, (c, call) in chain.items():
-        ok = len(call.args) == 1 and isinstance(call.args[0], ast.Name) and call.args[0].id == "address" and not call.keywords
-        r.check(ok, f"from_integer|address {k}", f.loc(call), f"decode of opcode {k} does not pass the address field on")
+        a = dargs.get(k, [])
+        ok = len(a) == 1 and a[0] is not None and a[0] == _Form.field("a", 0, 12) and not call.keywords
+        r.check(ok, f"from_integer|address {k}", f.loc(call), f"decode of opcode {k} does not pass the 12-bit address field on "
+                f"(argument: {a[0].describe() if a and a[0] is not None else '?'})")
     # parser lists
     atc = m.cls("AddressTypeInstruction")
     p = m.cls("ToyParser")
@@ -327,13 +364,53 @@ def asm_rule(ctx: Ctx, rid: str = "R19.asm") -> None:
     r.check("len(instructions) - 1 > self.last_address_not_used_by_data" in txt, "ToyParser._load_instructions|overflow", li.loc(),
             "the program/data collision check is gone or changed")
     # label pass
-    pl = m.method(p, "_process_labels", own=True)
-    inc = [n for n in walk_no_nested(pl.node) if isinstance(n, ast.AugAssign) and isinstance(n.target, ast.Name) and n.target.id == "program_counter"]
-    ok = len(inc) == 1 and const_int(inc[0].value) == 1
-    if ok:
-        parent_if = [n for n in walk_no_nested(pl.node) if isinstance(n, ast.If) and inc[0] in n.body]
-        ok = len(parent_if) == 1 and ast.unparse(parent_if[0].test) == "tokens.mnemonic"
-    r.check(ok, "ToyParser._process_labels|count", pl.loc(), "the label pass does not advance by one exactly on lines with a mnemonic")
+    pl = m.method(p, "_process_labels")
+    from ..pathsym import disj, iteration_paths, same_function
+    from ..symflow import Printer
+    s0 = pl.params[0]
+    loop = next((n for n in pl.node.body if isinstance(n, ast.For) and ast.unparse(n.iter) == f"{s0}.token_list"), None)
+    if loop is None or not (isinstance(loop.target, ast.Tuple) and len(loop.target.elts) == 3 and all(isinstance(x, ast.Name) for x in loop.target.elts)):
+        raise AnalysisError("anchor vanished: `for line_number, line, tokens in self.token_list` in ToyParser._process_labels")
+    al = {loop.target.elts[0].id: "N", loop.target.elts[1].id: "L", loop.target.elts[2].id: "E"}
+    counter = next((ast.unparse(n.target) for n in ast.walk(loop) if isinstance(n, ast.AugAssign) and isinstance(n.target, ast.Name)), None)
+    if counter is None:
+        raise AnalysisError("anchor vanished: the address counter of ToyParser._process_labels")
+    pr = Printer(m, pl.params, al, canonical=True)
+    incs: dict = {}
+    binds: dict = {}
+    late = []
+    for path, body, cond, leaves in iteration_paths(pl.node, loop, keep={counter}):
+        if path.term == "raise" and leaves:
+            continue
+        adds = [se for se in body if se.event.kind == "stmt" and isinstance(se.node, ast.AugAssign) and ast.unparse(se.node.target) == counter]
+        key = " + ".join(sorted(pr.show(a.node.value) for a in adds)) if adds else "0"
+        incs.setdefault(key, []).append(cond)
+        for se in body:
+            for c in calls_in(se.node):
+                if isinstance(c.func, ast.Attribute) and c.func.attr == "_add_label_mapping":
+                    kw = {k.arg: k.value for k in c.keywords}
+                    am = m.method("Parser", "_add_label_mapping")
+                    for p_, v in zip(am.params[1:], c.args):
+                        kw.setdefault(p_, v)
+                    binds.setdefault((pr.show(kw.get("label", ast.Constant(value=None))), pr.show(kw.get("value", ast.Constant(value=None)))), []).append(cond)
+                    if any(a.index < se.index for a in adds):
+                        late.append(se)
+    DECL = "E.get_name() == 'label_declaration'"
+    ok, shown = same_function(m, disj(incs.get("1", [])), f"not ({DECL}) and E.mnemonic", al) if "1" in incs else (False, "never")
+    extra = [k for k in incs if k not in ("0", "1")]
+    r.check(ok and not extra, "ToyParser._process_labels|count", pl.loc(loop),
+            f"the label pass advances by one exactly when `{shown}`{' and by ' + str(extra) + ' elsewhere' if extra else ''}; required: on every line "
+            "with a mnemonic that is not a stand-alone label declaration")
+    want = {("E.label", counter): DECL, ("E.in_line_label[0]", counter): f"not ({DECL}) and E.in_line_label"}
+    for k in sorted(set(binds) | set(want)):
+        # a guard `label is not None` in front of the binding only skips binding a None label: not a difference
+        none_atoms = {f"Is({k[0]}, None)": False, f"Is(None, {k[0]})": False}
+        okb, shownb = same_function(m, disj(binds[k]), want.get(k, "False"), al, assume=none_atoms) if k in binds else (False, "never")
+        r.check(okb, f"ToyParser._process_labels|bind:{k[0]}", pl.loc(loop),
+                f"the label pass binds `{k[0]}` to `{k[1]}` exactly when `{shownb}`; required: `{want.get(k, 'never')}` "
+                "(a declaration line binds its label, an instruction line its in-line label, both to the address of the next instruction)")
+    r.check(not late, "ToyParser._process_labels|bind-before-advance", pl.loc(late[0].node) if late else pl.loc(loop),
+            "a label is bound after the address was advanced past its own line")
     ptxt = " ".join(ast.unparse(pl.node).split())
     r.check("for line_number, line, tokens in self.token_list" in ptxt, "ToyParser._process_labels|scope", pl.loc(),
             "labels are not computed over the whole token list (segment order would matter)")
